@@ -113,5 +113,18 @@ theorem fleet_model_follows_agent_table :
             else Loop.execCreate l h r = l :=
   @_root_.Drummer.execCreate_follows_table
 
+theorem settle_is_step :
+    ∀ (size : Nat → Nat) (l : Loop) (a : Addr), Step size l (Loop.settle l a) ∨ Loop.settle l a = l :=
+  @_root_.Drummer.settle_step
+
+theorem replica_that_applied_its_removal_stops :
+    ∀ (l : Loop) (a : Addr) (h : Host),
+      Loop.host? l a = some h →
+        (Loop.settle l a).groups = l.groups ∧
+          ∀ (h' : Host),
+            Loop.host? (Loop.settle l a) a = some h' →
+              ∀ (r : SimReplica), r ∈ h'.running → Loop.appliedOwnRemoval l r = false :=
+  @_root_.Drummer.settle_spec
+
 end C01
 end Drummer
